@@ -57,6 +57,10 @@ def gen_pipelines(rng, tier, npipes=None, big=False, pool=None, p_enc=0.4):
         if rng.chance(0.05):
             wspec['subclassed'] = True
 
+        if rng.chance(0.08):
+            # a second, unrelated writer alive and used alternately
+            wspec['shadow'] = rng.below(50)
+
         actors.append(wspec)
         r = {'id': rid, 'kind': 'reader', 'file': fname}
         k = rng.below(10)
